@@ -22,6 +22,14 @@ func runC04(c *Ctx) {
 		}
 		return false
 	}, 7)
+	// ... and hand their own arguments to the engine method of the same name, each in its place
+	c.armPoolArgs("O7-pool-passes-its-arguments", func(m string) bool {
+		switch m {
+		case "Execute", "ExecuteSelectedRules", "ExecuteSelectedRulesWithControl", "ExecuteSelectedRulesWithControlAsGivenSortedName":
+			return true
+		}
+		return false
+	}, 4)
 
 	c.ruleO1("O1-comparator-descending")
 	c.Min("O1-comparator-descending", 10)
